@@ -205,3 +205,70 @@ def obligations():
     return _obligations_72() + [
         Ob('O7.3-collapse-d2', 'no generic type application survives collapse_type_apps: depth 2', ob_collapse, ('quick', 'thorough'), 10, dict(top=comp, inner=['TApp', 'TInt32'], depth=2)),
         Ob('O7.3-collapse-d3', 'no generic type application survives collapse_type_apps: depth 3', ob_collapse, ('thorough',), 100, dict(top=comp, inner=comp + ['TInt32'], depth=3))]
+
+# ----------------------------------------------------------------------------- O7.4 specialisation terminates: a generic function that calls itself at a type built from its own parameter
+def replay_polyrec(wrapper):
+    arg = {'id': 'x', 'tuple': '(x, x)', 'vec': 'mkvec(x)', 'ref': 'mkref(x)'}[wrapper]
+    src = 'fn mkvec[T](x: T) -> Vec[T] { vec_push(vec_new(), x) }\nfn mkref[T](x: T) -> Ref[T] { ref(x) }\nfn f[T](x: T, n: int32) -> int32 { if n == 0 { 0 } else { f(%s, n - 1) } }\nfn main() -> unit { string_println(int32_to_string(f(1, 3))) }\n' % arg
+    d = tempfile.mkdtemp(prefix='vf-c07-')
+    try:
+        open(os.path.join(d, 'main.gom'), 'w').write(src)
+        try:
+            p = subprocess.run('ulimit -v 1500000; exec %s run --dump-mono %s' % (build.compiler_bin(), os.path.join(d, 'main.gom')), shell=True, capture_output=True, text=True, timeout=60)
+            txt = p.stdout + p.stderr
+            bad = p.returncode < 0 or p.returncode == 134 or 'memory allocation' in txt or 'panicked' in txt or 'overflow' in txt
+            return bad, 'goml `%s`: exit %d %s' % (src.replace('\n', ' | '), p.returncode, txt[-160:].replace('\n', ' | ') if bad else 'terminates')
+        except subprocess.TimeoutExpired:
+            return True, 'goml `%s`: the compiler does not terminate within 60 s' % src.replace('\n', ' | ')
+    finally: shutil.rmtree(d, ignore_errors=True)
+
+def ob_polyrec(r, tier, seed):
+    W = e2.fresh_world(CRATES); tt = W.tt; W.step_limit = 300000
+    TY = tt.find_adt(['tast', 'Ty'], 'compiler'); CE = tt.find_adt(['core', 'Expr'], 'compiler'); CF = tt.find_adt(['core', 'Fn'], 'compiler'); CFILE = tt.find_adt(['core', 'File'], 'compiler')
+    PR = tt.find_adt(['common', 'Prim'], 'compiler')
+    r.bounds = 'the program `fn f[T](x: T) -> int32 { f(W(x)) }  fn main() { f(1) }` with W lazily one of: x itself, the tuple (x, x), a Vec of x, a Ref of x; mono::mono executed with a budget of %d MIR steps' % W.step_limit
+    r.assumptions = ['names::ty_compact (external `pretty` crate) replaced by an injective stand-in', 'oracle: monomorphisation terminates (the property: specialisation terminates for every accepted program; the typer accepts all four programs)']
+    def m_ty_compact(ex, a): return mkstr(json.dumps(shape(ex.deref(a[0]), TY), sort_keys=True).replace(' ', ''))
+    W.stubs['ty_compact'] = m_ty_compact
+    T = lambda n, *f: Agg(TY.key, TY.vindex(n), list(f))
+    E = lambda n, **kw: Agg(CE.key, CE.vindex(n), [kw[f[0]] for f in CE.variants[CE.vindex(n)].fields])
+    def entry(ex):
+        wk = ex.choose([(True, w) for w in ('id', 'tuple', 'vec', 'ref')]); ex.notes['wrapper'] = wk
+        tp = T('TParam', mkstr('T')); i32 = T('TInt32')
+        wty = {'id': tp, 'tuple': T('TTuple', PyVec([tp, tp])), 'vec': T('TVec', mkbox(tp)), 'ref': T('TRef', mkbox(tp))}[wk]
+        x = E('EVar', name=mkstr('x'), ty=tp)
+        if wk == 'id': arg = x
+        elif wk == 'tuple': arg = E('ETuple', items=PyVec([x, E('EVar', name=mkstr('x'), ty=tp)]), ty=wty)
+        else:
+            mkname = 'mkvec' if wk == 'vec' else 'mkref'
+            arg = E('ECall', func=mkbox(E('EVar', name=mkstr(mkname), ty=T('TFunc', PyVec([tp]), mkbox(wty)))), args=PyVec([x]), ty=wty)
+        fty = lambda a: T('TFunc', PyVec([a]), mkbox(i32))
+        body = E('ECall', func=mkbox(E('EVar', name=mkstr('f'), ty=fty(wty))), args=PyVec([arg]), ty=i32)
+        f = Agg(CF.key, 0, [{'name': mkstr('f'), 'generics': PyVec([mkstr('T')]), 'params': PyVec([Agg('tuple', 0, [mkstr('x'), tp])]), 'ret_ty': i32, 'body': body}[fl[0]] for fl in CF.variants[0].fields])
+        one = E('EPrim', value=Agg(PR.key, PR.vindex('Int32'), [1]), ty=i32)
+        mbody = E('ECall', func=mkbox(E('EVar', name=mkstr('f'), ty=fty(i32))), args=PyVec([one]), ty=i32)
+        main = Agg(CF.key, 0, [{'name': mkstr('main'), 'generics': PyVec([]), 'params': PyVec([]), 'ret_ty': i32, 'body': mbody}[fl[0]] for fl in CF.variants[0].fields])
+        genv = ex.call('env::GlobalTypeEnv::new_empty', [])
+        fns = [f, main]
+        if wk in ('vec', 'ref'):
+            # the wrapper is a generic helper of the program itself: fn mk[T](x: T) -> W[T] (body irrelevant for specialisation)
+            mk = Agg(CF.key, 0, [{'name': mkstr(mkname), 'generics': PyVec([mkstr('T')]), 'params': PyVec([Agg('tuple', 0, [mkstr('x'), tp])]), 'ret_ty': wty, 'body': E('EVar', name=mkstr('w'), ty=wty)}[fl[0]] for fl in CF.variants[0].fields])
+            fns.append(mk)
+        from mirsym.engine import Limit, Panic
+        try: res = ex.call('mono::mono', [genv, Agg(CFILE.key, 0, [PyVec(fns)])])
+        except Limit as e_: raise Panic('HANG-CANDIDATE: mono::mono still running after the step budget (%s)' % e_)
+        mf = res.fields[0]
+        return wk, len(mf.fields[0].items)
+    res = e2.explore(r, W, entry, [])
+    for p in res:
+        r.cases += 1
+        if p.kind == 'ok': r.nontrivial += 1; r.samples.append({'wrapper': p.value[0], 'instances': p.value[1]}); continue
+        wk = (p.notes or {}).get('wrapper', '?')
+        key = 'specialisation-diverges:polymorphic-recursion' if ('limit' in p.value.lower() or 'HANG' in p.value) else 'panic'
+        if any(f.key == key for f in r.findings): continue
+        ok_, detail = replay_polyrec(wk) if wk != '?' else (False, 'no wrapper recorded')
+        r.findings.append(Finding(key, 'mono::mono does not finish on `fn f[T](x: T) { f(%s) }` called from main (%s)' % ({'id': 'x', 'tuple': '(x, x)', 'vec': 'Vec of x', 'ref': 'Ref of x'}.get(wk, wk), p.value[:120]), {'wrapper': wk}, ok_, detail))
+
+_obligations_73 = obligations
+def obligations():
+    return _obligations_73() + [Ob('O7.4-specialisation-terminates', 'monomorphisation terminates on a generic function calling itself at a type built from its parameter', ob_polyrec, ('quick', 'thorough'), 5, {})]
